@@ -1,19 +1,19 @@
-\* C03 fault-free: two pollers, r1 is stopped (kill and reroute)
+\* known finding (C06): two runners: candidate check .. claim and authorise .. RUNNING are check-then-act (expected counterexample of OneRunningPerKey)
 SPECIFICATION Spec
 CONSTANTS
   Inv = {"i1", "i2"}
   Runner = {"r1", "r2"}
   Client = {"c1"}
-  Key <- KeyNone
-  Mode = "disabled"
+  Key <- KeySame
+  Mode = "keys"
   RerouteOnCC = TRUE
   MaxRetries = 1
-  Outcome <- RetryOk
-  Submissions <- SubMix
+  Outcome <- AllOk
+  Submissions <- SubSingle2
   PollN = 1
   Pollers = {"r1", "r2"}
   Recoverers = {}
-  Stoppable = {"r1"}
+  Stoppable = {}
   MaxCrashes = 0
   TrackHist = FALSE
   RecoveryAbortsOnLostRace = FALSE
@@ -21,9 +21,9 @@ CONSTANTS
 CONSTRAINT Bounded
 INVARIANT TypeOK
 INVARIANT NoStranded
+INVARIANT OneRunningPerKey
 INVARIANT SuccessHasResult
 INVARIANT FailedHasException
 INVARIANT ChangeLogIsPath
-INVARIANT StoppedLeavesNothing
 PROPERTY CoreFollowsEdge
 PROPERTY CoreFinalAbsorbing
